@@ -221,6 +221,9 @@ func (config ConfigDistribution) GetParametersAsMatrix(t ScalarType, n, m int) (
   if v, ok := config.getFloats(config.Parameters); !ok {
     return nil, false
   } else {
+    if n < 0 || m < 0 || len(v) != n*m {
+      return nil, false
+    }
     return AsDenseMatrix(t, NewDenseFloat64Matrix(v, n, m)), true
   }
 }
@@ -313,6 +316,10 @@ func (config ConfigDistribution) GetNamedParametersAsMatrix(name string, t Scala
   if v, ok := config.GetNamedParametersAsFloats(name); !ok {
     return nil, false
   } else {
+    // the dimensions come from another entry of the file
+    if n < 0 || m < 0 || len(v) != n*m {
+      return nil, false
+    }
     return AsDenseMatrix(t, NewDenseFloat64Matrix(v, n, m)), true
   }
 }
